@@ -45,3 +45,32 @@ package mvt
 //@ func (*geomDecoder).decodeLine(gd)
 //@   requires gd.iter != nil && gd.used >= 0 && gd.used <= 1099511627776
 //@   opt alloc=gd.count+1
+
+// ---------------------------------------------------------------- features added per geometry (C03)
+// ASSUMED (listed): encoding the properties writes only the key/value encoder's own tables. The body
+// hands user values to reflect, encoding/json and fmt.Stringer, whose effects are not analysable.
+//@ func encodeProperties(kve, properties)
+//@   trusted
+//@   requires kve != nil
+//@   modifies *kve
+
+// the command encoder and the id conversion only allocate and write their own new objects: callers
+// use these (empty) contracts with the effect sets computed from the bodies instead of inlining them
+//@ func encodeGeometry(g)
+//@ func convertID(id)
+
+// one geometry adds exactly one feature to the layer, or none and an error
+//@ func addSingleGeometryFeature(layer, kve, g, p, id)
+//@   requires layer != nil && kve != nil
+//@   modifies *layer, *kve, layer.Features[*]
+//@   ensures result == nil ==> len(layer.Features) == old(len(layer.Features)) + 1
+//@   ensures result != nil ==> len(layer.Features) == old(len(layer.Features))
+
+// a feature without geometry is skipped; every member of a geometry collection becomes its own
+// feature; any other geometry becomes one feature
+//@ func addFeature(layer, kve, f)
+//@   requires layer != nil && kve != nil && f != nil
+//@   modifies *layer, *kve, layer.Features[*]
+//@   ensures f.Geometry == nil ==> result == nil && len(layer.Features) == old(len(layer.Features))
+//@   ensures result == nil && istype(f.Geometry, orb.Collection) ==> len(layer.Features) == old(len(layer.Features)) + len(as(f.Geometry, orb.Collection))
+//@   ensures result == nil && f.Geometry != nil && !istype(f.Geometry, orb.Collection) ==> len(layer.Features) == old(len(layer.Features)) + 1
